@@ -143,7 +143,7 @@ impl<S: Read + Write> Client<S> {
             }
             else {
                 // now wait for body
-                Ok(Payload::Raw(Cursor::new(self.transport.read(size.inner() as usize - 4)?)))
+                Ok(Payload::Raw(Cursor::new(self.read_body(size.inner() as usize - 4)?)))
             }
         } else {
             // fast path
@@ -158,17 +158,30 @@ impl<S: Read + Write> Client<S> {
                 if length < 3 {
                     Err(Error::RdpError(RdpError::new(RdpErrorKind::InvalidSize, "Invalid minimal size for TPKT")))
                 } else {
-                    Ok(Payload::FastPath(sec_flag, Cursor::new(self.transport.read(length as usize - 3)?)))
+                    Ok(Payload::FastPath(sec_flag, Cursor::new(self.read_body(length as usize - 3)?)))
                 }
             }
             else {
                 if short_length < 2 {
                     Err(Error::RdpError(RdpError::new(RdpErrorKind::InvalidSize, "Invalid minimal size for TPKT")))
                 } else {
-                    Ok(Payload::FastPath(sec_flag, Cursor::new(self.transport.read(short_length as usize - 2)?)))
+                    Ok(Payload::FastPath(sec_flag, Cursor::new(self.read_body(short_length as usize - 2)?)))
                 }
             }
          }
+    }
+
+    /// Read the body of a frame
+    /// A frame with an empty body is complete once its header is read :
+    /// for the link layer a size of zero means "read what is available",
+    /// which would consume the frames that follow
+    fn read_body(&mut self, size: usize) -> RdpResult<Vec<u8>> {
+        if size == 0 {
+            Ok(Vec::new())
+        }
+        else {
+            self.transport.read(size)
+        }
     }
 
     /// This function transform the link layer with
